@@ -134,6 +134,6 @@ def families(tier):
         parts = parts_product(x1=(0, 1), x2=range(NOP), x3=range(NOP))
     else:
         pre += ["0 <= x5 <= %d" % NOP, "a5 >= 0", "a2 <= 2", "a3 <= 3", "a4 <= 3", "a5 <= 3"]
-        parts = parts_product(x1=(0, 1), x2=range(NOP), x3=range(NOP))
+        parts = parts_product(x1=(0, 1), x2=range(NOP), x3=range(NOP), x4=range(NOP + 1))
     return [Family(name="queue", fn="tpl_queue", params=P, pre=pre, parts=parts,
                    twin_pre=["x1 == 0", "x2 == 1", "x3 == 4"], twin_args=[0, 0, 0, 1, 0, 4, 0, NOP, 0, NOP, 0, 9])]
